@@ -230,42 +230,60 @@ def check_schedule(events, incarnations, t_end, part_violation, sig_prefix=""):
 
 
 def check_maxsimul(events, incarnations, part_violation):
-    """C12: running(T) <= N; -n exactly when the limit is reached; no spill-over to other tasks"""
+    """C12: running(T) <= N; -n exactly when the limit is reached; no spill-over to other tasks.
+    Two counts are kept per task: children that have not exited yet (the truth) and children the
+    daemon has not reaped yet (what it can know); an exit and a timer may share one loop iteration
+    in either order, so each rule uses the count that makes it sound."""
     vt = {e[1]: e[2] for e in events if e[0] == "VTODO"}
-    running = {}       # uid -> set of idx
-    norun_seen = 0
-    limited_hits = 0
+    alive = {}         # uid -> set of idx, removed at EXIT
+    unreaped = {}      # uid -> set of idx, removed at REAP
     idx_uid = {}
+    pid_idx = {}
+    st = {"norun_spawns": 0, "spawns_at_limit": 0, "max_running": 0, "runs_after_limit": 0, "limited_spawns": 0}
+    hit = set()
     for e in events:
         if e[0] == "SPAWN":
             idx, pid, s, argv = e[1], e[2], e[3], e[4]
             uid = vtodo_uid(vt.get(idx, ""))
             idx_uid[idx] = uid
+            pid_idx[pid] = idx
             if uid is None:
                 continue
             lim = None
             for inc in incarnations.get(uid, []):
                 if inc.t0 <= s + 1e-9 and (inc.end is None or s < inc.end - 1e-9):
                     lim = inc.limit
-            r = running.setdefault(uid, set())
+            a = alive.setdefault(uid, set())
+            u = unreaped.setdefault(uid, set())
             norun = has_norun(argv)
             if lim is None:
                 if norun:
                     part_violation("norun-on-unlimited-task", "%s has no limit but is started with %s at %.3f" % (uid, argv[1:], s))
             else:
-                if len(r) < lim and norun:
-                    part_violation("norun-below-limit", "%s: %d of %d running but started with %s at %.3f" % (uid, len(r), lim, argv[1:], s))
-                if len(r) >= lim and not norun:
-                    part_violation("limit-exceeded", "%s: %d already running, limit %d, yet another one is started at %.3f" % (uid, len(r), lim, s))
-                if len(r) >= lim:
-                    limited_hits += 1
+                st["limited_spawns"] += 1
+                if len(u) < lim and norun:
+                    part_violation("norun-below-limit", "%s: the daemon knows of %d running, limit %d, but starts it with %s at %.3f"
+                                   % (uid, len(u), lim, argv[1:], s))
+                if len(a) >= lim and not norun:
+                    part_violation("limit-exceeded", "%s: %d still running, limit %d, yet another one is started at %.3f" % (uid, len(a), lim, s))
+                if len(u) >= lim:
+                    st["spawns_at_limit"] += 1
+                    hit.add(uid)
+                elif uid in hit and not norun:
+                    st["runs_after_limit"] += 1
             if norun:
-                norun_seen += 1
+                st["norun_spawns"] += 1
             else:
-                r.add(idx)
+                a.add(idx)
+                u.add(idx)
+                st["max_running"] = max(st["max_running"], len(a))
         elif e[0] == "EXIT":
-            idx = e[1]
+            uid = idx_uid.get(e[1])
+            if uid in alive:
+                alive[uid].discard(e[1])
+        elif e[0] == "REAP":
+            idx = pid_idx.get(e[1])
             uid = idx_uid.get(idx)
-            if uid in running:
-                running[uid].discard(idx)
-    return {"norun_spawns": norun_seen, "spawns_at_limit": limited_hits}
+            if uid in unreaped:
+                unreaped[uid].discard(idx)
+    return st
